@@ -216,6 +216,9 @@ func c02Run(x *core.Ctx) {
 				}
 			case 2:
 				doc = dgen.CollisionDoc(r, mg)
+				if j%8 == 2 {
+					doc = dgen.CyclicCollisionDoc(r, mg)
+				}
 			default:
 				doc = gen.QueryDoc(r, &gen.QOpts{MaxDepth: 3, VarDirs: true, MaxDefs: 4, Hostile: j%8 == 3})
 			}
@@ -232,6 +235,16 @@ func c02Run(x *core.Ctx) {
 			}
 		}
 		prevSrc = ssrc
+	}
+	// the fixed "pets" schema: two fragments compared under mutually exclusive parents and side by side, with a spread cycle
+	// through them
+	if sd, err := parser.ParseSchema(&ast.Source{Name: "pets.graphql", Input: c08PetsSchema}); err == nil {
+		pmg := tsys.Merge(model.FromSchemaAST(sd).Items)
+		for j := 0; j < ns*2; j++ {
+			d := dgen.CyclicPetsScenarioDoc(r, pmg)
+			pc := core.NewCase("pair", "schema", c08PetsSchema, "doc", rn.RenderDoc(d))
+			x.Do(pc, func() { c02Check(x, pc) })
+		}
 	}
 	// families: distributed over the shards
 	ks := []int{4, 8, 16, 32}
